@@ -188,7 +188,7 @@ def sa_check(case):
 
 
 # ------------------------------------------------------------------ histories on one generator object
-OPS = ("full", "peek", "half", "tscale", "valid", "valid-peek", "splice", "slice-half", "nested", "raise")
+OPS = ("full", "peek", "half", "tscale", "valid", "valid-peek", "splice", "slice-half", "nested", "raise", "valid-nested", "zip")
 
 
 def _hist_cases(tier, seed):
@@ -277,6 +277,26 @@ def hist_check(case):
                     return "tscale asked for inside a pass has %d entries, expected %d" % (ts.size, ts_ref.size)
                 break
             return None
+        if op == "valid-nested":
+            # the time scale asked for inside a loop over the valid sub-windows (another pass over the same object in flight)
+            if overlap % 2:
+                return None
+            cnt = np.zeros(ns, dtype=int)
+            for a, b, fv, lv in itertools.islice(wg.firstlast_valid, ns + 3):
+                wg.tscale(fs)
+                cnt[fv:lv] += 1
+            return None if np.all(cnt == 1) else "valid sub-windows (with tscale() called inside the loop) cover samples %r times" % (sorted(set(cnt.tolist())),)
+        if op == "zip":
+            # two generators of the same object consumed in lock-step: valid sub-windows and splicing amplitudes
+            if overlap % 2 or 2 * overlap > nswin:
+                return None
+            cnt = np.zeros(ns, dtype=int)
+            tot = np.zeros(ns)
+            for (a, b, fv, lv), (a2, b2, amp) in zip(itertools.islice(wg.firstlast_valid, ns + 3), wg.firstlast_splicing):
+                cnt[fv:lv] += 1
+                tot[a2:b2] += amp
+            return None if np.all(cnt == 1) and np.allclose(tot, 1.0, rtol=0, atol=1e-9) else \
+                "valid sub-windows and splicing amplitudes consumed in lock-step: samples covered %r times, amplitudes sum to %r" % (sorted(set(cnt.tolist())), sorted(set(np.round(tot, 6).tolist()))[:4])
         if op == "raise":
             # processing of a window raises, the caller handles it and goes on with the same object
             try:
